@@ -25,19 +25,36 @@ pub fn pos_arg(r: &mut Rng) -> (f64, &'static str) {
     }
 }
 
+fn tiny_arg(r: &mut Rng) -> (f64, &'static str) {
+    match r.below(3) {
+        0 => (f64::from_bits(r.below(1 << 52).max(1)), "subnormal"),
+        1 => (f64::MIN_POSITIVE * r.uniform(1.0, 1e6), "just_above_min_positive"),
+        _ => (10f64.powf(r.uniform(-307.0, -290.0)), "tiny_normal"),
+    }
+}
+
 macro_rules! logint_one {
     ($m:expr, $sink:expr, $r:expr, $t:ident, $deg:expr) => {{
         let m: &mut Mon = $m;
         let r: &mut Rng = $r;
-        let (kx, kc) = pos_arg(r);
-        let ky = match r.below(4) { 0 => 0.0, 1 => 2.0, 2 => r.logu(5.0), _ => r.mixed(3.0) };
-        let (a, ac) = pos_arg(r);
-        let (b, bc) = pos_arg(r);
-        let (c, cc) = coeff_vec(r, <$t as Nums>::LEN, kx.ln());
+        // 1 in 16: knot and both evaluation points tiny (down to subnormal), coefficients and knot ordinate scaled up
+        // so that the terms themselves stay in the normal range
+        let tiny = r.below(16) == 0;
+        let (kx, kc) = if tiny { tiny_arg(r) } else { pos_arg(r) };
+        let up = if tiny { 10f64.powf(r.uniform(255.0, 285.0)) } else { 1.0 };
+        let ky = match r.below(4) { 0 => 0.0, 1 => 2.0, 2 => r.logu(5.0), _ => r.mixed(3.0) } * if tiny { up * kx } else { 1.0 };
+        let (a, ac) = if tiny { tiny_arg(r) } else { pos_arg(r) };
+        let (b, bc) = if tiny { tiny_arg(r) } else { pos_arg(r) };
+        let (c, cc) = if tiny {
+            ((0..<$t as Nums>::LEN).map(|_| r.uniform(-3.0, 3.0) * up).collect::<Vec<f64>>(), "scaled_up_for_tiny_points")
+        } else {
+            coeff_vec(r, <$t as Nums>::LEN, kx.ln())
+        };
         let p = Log(<$t>::from_nums(&c));
         let k = Knot { x: kx, y: ky };
         m.eval();
         m.count(&format!("degree:{}", $deg));
+        m.count(&format!("coeffs:{}", cc));
         m.count(&format!("knot_x:{}", kc));
         m.count(&format!("a:{}", ac));
         m.count(&format!("b:{}", bc));
@@ -77,7 +94,7 @@ fn canaries09(m: &mut Mon, sink: &mut Sink) {
     m.canaries_fed += 4;
 }
 
-pub const FLOORS09: &[&str] = &["degree:0", "degree:4", "degree:8", "knot_x_not_one", "a_b_straddle_one", "a:ulps_of_1", "a:e4", "b:e-4", "a:in_0_1", "area_checked", "knot_checked", "coefficients_checked"];
+pub const FLOORS09: &[&str] = &["degree:0", "degree:4", "degree:8", "knot_x_not_one", "a_b_straddle_one", "a:ulps_of_1", "a:e4", "b:e-4", "a:in_0_1", "a:subnormal", "coeffs:common_scale", "coeffs:tiny_scale", "area_checked", "knot_checked", "coefficients_checked"];
 
 pub fn drive09(a: &Args, m: &mut Mon, sink: &mut Sink) {
     m.floors(FLOORS09);
@@ -100,9 +117,17 @@ pub fn drive09(a: &Args, m: &mut Mon, sink: &mut Sink) {
 // ------------------------------------------------------------------------------------------ C10
 
 fn quartic_form(r: &mut Rng) -> ([f64; 6], &'static str) {
-    let (mut v, name) = quartic_form0(r);
+    let (mut v, mut name) = quartic_form0(r);
     if r.chance(0.25) {
         v[0] = 0.0; // no additive constant: nothing masks the v-dependent terms
+    }
+    if r.chance(0.12) {
+        // the whole form at a very small or very large common scale (tiny / huge u and c_j)
+        let sc = 10f64.powf(r.uniform(-40.0, 40.0));
+        for x in v.iter_mut() {
+            *x *= sc;
+        }
+        name = "common_scale";
     }
     (v, name)
 }
@@ -163,7 +188,7 @@ fn quartic_arg(r: &mut Rng, lo_switch: f64, hi_switch: f64) -> (f64, &'static st
         4 | 5 => ((-(r.uniform(-40.0, 40.0))).exp(), "x_sweep_-40_40"),
         6 => ((-(r.uniform(-2.0, 2.0))).exp(), "x_sweep_-2_2"),
         7 => (r.uniform(0.79, 1.21), "v_benchmark_range"),
-        8 => (10f64.powf(r.uniform(-300.0, -5.0)), "v_tiny"),
+        8 => (10f64.powf(r.uniform(-307.6, -5.0)), "v_tiny"),
         9 => (10f64.powf(r.uniform(5.0, 300.0)), "v_huge"),
         10 => ((-(r.logu(3.0) * 1e-6)).exp(), "x_near_zero"),
         _ => (r.uniform(0.0, 10.0).max(1e-300), "v_moderate"),
@@ -205,7 +230,7 @@ fn canaries10(m: &mut Mon, sink: &mut Sink) {
 
 pub const FLOORS10: &[&str] = &[
     "v:v_ulps_of_1", "v:v_adjacent_floats_of_1", "v:v_one", "v:v_ulps_of_lower_switch", "v:v_ulps_of_upper_switch", "v:x_sweep_-40_40", "v:v_tiny", "v:v_huge", "v:x_near_zero",
-    "form:one_hot", "form:benchmark_magnitudes", "form:from_integral", "branch_series", "branch_closed_form", "checked", "v_equals_one_exact",
+    "form:one_hot", "form:benchmark_magnitudes", "form:from_integral", "form:common_scale", "v:v_repeated", "branch_series", "branch_closed_form", "checked", "v_equals_one_exact",
 ];
 
 pub fn drive10(a: &Args, m: &mut Mon, sink: &mut Sink) {
@@ -249,10 +274,14 @@ pub fn drive10(a: &Args, m: &mut Mon, sink: &mut Sink) {
     let step = if a.thorough() { 1e-3 } else { 1e-2 };
     let mut xi = -40.0 + step * a.shard as f64;
     let mut todo = n;
+    let mut prev_v = 0.0f64;
     while todo > 0 {
         todo -= 1;
         let (form, fc) = quartic_form(&mut r);
-        let (v, vc) = if xi <= 40.0 && todo % 2 == 0 {
+        let (v, vc) = if prev_v > 0.0 && r.chance(0.08) {
+            // the same argument again with another form: adjacent pieces evaluated at a shared knot
+            (prev_v, "v_repeated")
+        } else if xi <= 40.0 && todo % 2 == 0 {
             let x = xi + step * r.unit() * 0.5;
             xi += step * a.nshards as f64;
             ((-x).exp(), "x_dense_sweep")
@@ -262,6 +291,7 @@ pub fn drive10(a: &Args, m: &mut Mon, sink: &mut Sink) {
         if !(v > 0.0) || !v.is_finite() {
             continue;
         }
+        prev_v = v;
         let q = IntOfLogPoly4::from_nums(&form);
         m.eval();
         m.count(&format!("form:{}", fc));
